@@ -39,6 +39,8 @@ type Step struct {
 	Conf  int    `json:"conf,omitempty"`  // events: confirmations
 	Dup   bool   `json:"dup,omitempty"`   // events: delivered twice
 	Secs  int    `json:"secs,omitempty"`  // sleep
+	BlkOff int   `json:"blk_off,omitempty"` // logs: the logs are (re)delivered on a check block this much higher
+	Late  bool   `json:"late,omitempty"`  // round: reports withheld from nodes earlier (Skip) reach them after this round's observations were built
 }
 
 type Scenario struct {
@@ -91,9 +93,11 @@ func rkey(r common.CheckResult) string {
 	return string(b)
 }
 
-func logPayload(n int) common.UpkeepPayload {
+func logPayload(n int) common.UpkeepPayload { return logPayloadAt(n, 0) }
+
+func logPayloadAt(n, off int) common.UpkeepPayload {
 	id := UpkeepID(1, 300+n%5)
-	tr := common.NewLogTrigger(common.BlockNumber(1000+n%3), Hash32("cb", 1000+n%3), &common.LogTriggerExtension{
+	tr := common.NewLogTrigger(common.BlockNumber(1000+n%3+off), Hash32("cb", 1000+n%3+off), &common.LogTriggerExtension{
 		TxHash: Hash32("tx", n), Index: uint32(n % 4), BlockHash: Hash32("lb", n), BlockNumber: common.BlockNumber(999)})
 	return common.UpkeepPayload{UpkeepID: id, Trigger: tr, WorkID: WG(id, tr)}
 }
@@ -205,12 +209,30 @@ func runScenario(t *testing.T, sc *Scenario) {
 			}
 		}
 	}
+	withheld := map[int][]producedReport{}
+	acceptAt := func(i int, pr producedReport) {
+		h, ok := nodes[i]
+		if !ok {
+			return
+		}
+		ok2, err := h.nd.Plugin.ShouldAcceptAttestedReport(context.Background(), pr.seq, pr.rep)
+		if err == nil && ok2 {
+			lg.accepts = append(lg.accepts, [2]any{i, pr.rows})
+			for _, r := range pr.res {
+				if acceptedBy[r.WorkID] == nil {
+					acceptedBy[r.WorkID] = map[int]bool{}
+					acceptedAt[r.WorkID] = time.Now()
+				}
+				acceptedBy[r.WorkID][i] = true
+			}
+		}
+	}
 	for _, st := range sc.Steps {
 		switch st.Op {
 		case "logs":
 			var ps []common.UpkeepPayload
 			for _, n := range st.Logs {
-				ps = append(ps, logPayload(n))
+				ps = append(ps, logPayloadAt(n, st.BlkOff))
 			}
 			for _, i := range st.Nodes {
 				if h, ok := nodes[i]; ok {
@@ -308,8 +330,8 @@ func runScenario(t *testing.T, sc *Scenario) {
 						}
 					}
 					b, _ = o.Encode()
-				case "copy1": // vouches for whatever honest node 1 observed
-					if ob, ok := byNode[1]; ok {
+				case "copy1", "copy2": // vouches for whatever honest node 1 (resp. 2) observed
+					if ob, ok := byNode[int(st.Byz[4]-'0')]; ok {
 						b = ob
 					} else {
 						b = []byte("{}")
@@ -324,6 +346,16 @@ func runScenario(t *testing.T, sc *Scenario) {
 				aobs = append(aobs, ocr2plustypes.AttributedObservation{Observation: b, Observer: commontypes.OracleID(i)})
 			}
 			lastHonestObs = thisHonest
+			if st.Late {
+				// the attested reports of earlier rounds reach the nodes they were withheld from only now: after
+				// this round's observations were built, before its outcome is computed (normal OCR3 overlap)
+				for i, prs := range withheld {
+					for _, pr := range prs {
+						acceptAt(i, pr)
+					}
+				}
+				withheld = map[int][]producedReport{}
+			}
 			leader := peerAny()
 			out, err := leader.nd.Plugin.Outcome(context.Background(), outctx, nil, aobs)
 			if err != nil {
@@ -379,21 +411,12 @@ func runScenario(t *testing.T, sc *Scenario) {
 				pr := producedReport{seq: seq, rep: rp.ReportWithInfo, rows: lg.rowsOf(res), res: res}
 				rl.reports = append(rl.reports, pr.rows)
 				reports = append(reports, pr)
-				for i, h := range nodes {
+				for i := range nodes {
 					if skip[i] {
+						withheld[i] = append(withheld[i], pr)
 						continue
 					}
-					ok, err := h.nd.Plugin.ShouldAcceptAttestedReport(context.Background(), seq, rp.ReportWithInfo)
-					if err == nil && ok {
-						lg.accepts = append(lg.accepts, [2]any{i, pr.rows})
-						for _, r := range res {
-							if acceptedBy[r.WorkID] == nil {
-								acceptedBy[r.WorkID] = map[int]bool{}
-								acceptedAt[r.WorkID] = time.Now()
-							}
-							acceptedBy[r.WorkID][i] = true
-						}
-					}
+					acceptAt(i, pr)
 				}
 			}
 			lg.rounds = append(lg.rounds, rl)
